@@ -22,6 +22,8 @@ def PArgs (n : Nat) (ts : List Tok) (es : Args) (r : List Tok) : Prop :=
   ∀ f, n ≤ f → parseArgs f ts = some (es, r)
 def PCases (n : Nat) (ts : List Tok) (cs : Cases) (r : List Tok) : Prop :=
   ∀ f, n ≤ f → parseCases f ts = some (cs, r)
+def PStmts (n : Nat) (ts : List Tok) (b : Blk) (r : List Tok) : Prop :=
+  ∀ f, n ≤ f → parseStmts f ts = some (b, r)
 
 theorem PTop.mono {n n' ts e r} (h : PTop n ts e r) (hn : n ≤ n') : PTop n' ts e r :=
   fun f hf => h f (by omega)
@@ -34,6 +36,8 @@ theorem PLoop.mono {n n' k a ts e r} (h : PLoop n k a ts e r) (hn : n ≤ n') : 
 theorem PArgs.mono {n n' ts e r} (h : PArgs n ts e r) (hn : n ≤ n') : PArgs n' ts e r :=
   fun f hf => h f (by omega)
 theorem PCases.mono {n n' ts e r} (h : PCases n ts e r) (hn : n ≤ n') : PCases n' ts e r :=
+  fun f hf => h f (by omega)
+theorem PStmts.mono {n n' ts e r} (h : PStmts n ts e r) (hn : n ≤ n') : PStmts n' ts e r :=
   fun f hf => h f (by omega)
 
 theorem succ_of_le {n f : Nat} (h : n + 1 ≤ f) : ∃ f', f = f' + 1 ∧ n ≤ f' := ⟨f - 1, by omega, by omega⟩
@@ -52,7 +56,7 @@ theorem ptop_level {n ts e r} (h : PLevel n 0 ts e r) (hk : notKw ts) : PTop (n 
   · intro ts' he; exact (hk ts').1 he
 
 theorem ptop_if {n1 n2 n3 ts c t e r1 r2 r3} (h1 : PTop n1 ts c (.lb :: r1))
-    (h2 : PTop n2 r1 t (.rb :: .kwElse :: .lb :: r2)) (h3 : PTop n3 r2 e (.rb :: r3)) :
+    (h2 : PStmts n2 r1 t (.kwElse :: .lb :: r2)) (h3 : PStmts n3 r2 e r3) :
     PTop (n1 + n2 + n3 + 1) (.kwIf :: ts) (.ifElse c t e) r3 := by
   intro f hf
   obtain ⟨f', rfl, hf'⟩ := succ_of_le hf
@@ -106,8 +110,38 @@ theorem pbase_tuple {n1 n2 ts e r es r'} (h1 : PTop n1 ts e (.comma :: r)) (h2 :
   intro f hf; obtain ⟨f', rfl, hf'⟩ := succ_of_le hf
   simp [parseBase, h1 f' (by omega), h2 f' (by omega)]
 
-theorem pbase_block {n ts e r} (h : PTop n ts e (.rb :: r)) : PBase (n + 1) (.lb :: ts) (.block e) r := by
+theorem pbase_block {n ts b r} (h : PStmts n ts b r) : PBase (n + 1) (.lb :: ts) (.block b) r := by
   intro f hf; obtain ⟨f', rfl, hf'⟩ := succ_of_le hf; simp [parseBase, h f' hf']
+
+/-- the input does not start with a token that `parse_block` dispatches on. -/
+def exprStart (ts : List Tok) : Prop :=
+  (∀ r, ts ≠ .rb :: r) ∧ (∀ r, ts ≠ .semi :: r) ∧ (∀ k r, ts ≠ .letK k :: r)
+
+theorem pstmts_rb (r : List Tok) : PStmts 1 (.rb :: r) (.noFin .nil) r := by
+  intro f hf; obtain ⟨f', rfl, _⟩ := succ_of_le hf; simp [parseStmts]
+
+theorem pstmts_let {n1 n2 ts e r b r'} (k : Nat) (h1 : PTop n1 ts e (.semi :: r))
+    (h2 : PStmts n2 r b r') : PStmts (n1 + n2 + 1) (.letK k :: ts) (b.consLet k e) r' := by
+  intro f hf; obtain ⟨f', rfl, hf'⟩ := succ_of_le hf
+  simp [parseStmts, h1 f' (by omega), h2 f' (by omega)]
+
+theorem pstmts_expr {n1 n2 ts e r b r'} (hs : exprStart ts) (h1 : PTop n1 ts e (.semi :: r))
+    (h2 : PStmts n2 r b r') : PStmts (n1 + n2 + 1) ts (b.consExpr e) r' := by
+  intro f hf; obtain ⟨f', rfl, hf'⟩ := succ_of_le hf
+  rw [parseStmts]
+  · simp [h1 f' (by omega), h2 f' (by omega)]
+  · intro r0 he; exact hs.1 r0 he
+  · intro r0 he; exact hs.2.1 r0 he
+  · intro k0 r0 he; exact hs.2.2 k0 r0 he
+
+theorem pstmts_fin {n ts e r} (hs : exprStart ts) (h1 : PTop n ts e (.rb :: r)) :
+    PStmts (n + 1) ts (.fin .nil e) r := by
+  intro f hf; obtain ⟨f', rfl, hf'⟩ := succ_of_le hf
+  rw [parseStmts]
+  · simp [h1 f' (by omega)]
+  · intro r0 he; exact hs.1 r0 he
+  · intro r0 he; exact hs.2.1 r0 he
+  · intro k0 r0 he; exact hs.2.2 k0 r0 he
 
 theorem pbase_lam {n ts body r} (k : Nat) (h : PTop n ts body r) :
     PBase (n + 1) (.lam k :: ts) (.lambda k body) r := by
@@ -191,8 +225,10 @@ theorem ploop_stop {k : Nat} {e : Expr} {ts : List Tok}
     | kwIf => simp [parseLoop]
     | kwElse => simp [parseLoop]
     | kwMatch => simp [parseLoop]
+    | semi => simp [parseLoop]
     | atom a => simp [parseLoop]
     | pat a => simp [parseLoop]
+    | letK a => simp [parseLoop]
     | lam a => simp [parseLoop]
 
 theorem ploop_stop_of {k k' : Nat} {e : Expr} {ts : List Tok} (h : stopsAbove k ts) (hk : k ≤ k') :
@@ -301,7 +337,7 @@ theorem printE_binary (o : BinOp) (l r : Expr) :
 theorem endsMember_of_lastField : (e : Expr) → lastField e = true → endsMember e = true
   | .atom a, h => by simp [lastField] at h
   | .tuple e es, h => by simp [lastField] at h
-  | .block e, h => by simp [lastField] at h
+  | .block b, h => by simp [lastField] at h
   | .call0 f, h => by simp [lastField] at h
   | .call f a, h => by simp [lastField] at h
   | .ifElse c t e, h => by simp [lastField] at h
@@ -452,7 +488,7 @@ theorem notRp_of_headOk {ts : List Tok} (h : headOk ts) : notRp ts := by
 theorem head_base : (e : Expr) → e.operandOk = true → e.lvl = 6 → headBase (printE e)
   | .atom a, _, _ => ⟨.atom a, [], rfl, .inr (.inr ⟨a, rfl⟩)⟩
   | .tuple e es, _, _ => ⟨.lp, printE e ++ .comma :: (printArgs es ++ [.rp]), by simp [printE], .inl rfl⟩
-  | .block e, _, _ => ⟨.lb, printE e ++ [.rb], by simp [printE], .inr (.inl rfl)⟩
+  | .block b, _, _ => ⟨.lb, printBody b, by simp [printE], .inr (.inl rfl)⟩
   | .post e p fld, _, _ => by
     simp only [printE, sub]
     by_cases hp : needParen 1 false e = true
@@ -519,13 +555,13 @@ mutual
 def B : Expr → Nat
   | .atom _ => 4
   | .tuple e es => B e + BArgs es + 100
-  | .block e => B e + 100
+  | .block b => BBlk b + 100
   | .post e _ _ => B e + 100
   | .call0 f => B f + 100
   | .call f args => B f + BArgs args + 100
   | .unary _ e => B e + 100
   | .binary _ l r => B l + B r + 160
-  | .ifElse c t e => B c + B t + B e + 160
+  | .ifElse c t e => B c + BBlk t + BBlk e + 160
   | .matchE m cs => B m + BCases cs + 100
   | .lambda _ b => B b + 100
 def BArgs : Args → Nat
@@ -534,7 +570,30 @@ def BArgs : Args → Nat
 def BCases : Cases → Nat
   | .one _ b => B b + 40
   | .cons _ b rest => B b + BCases rest + 40
+def BBlk : Blk → Nat
+  | .fin ss e => BStmts ss + B e + 60
+  | .noFin ss => BStmts ss + 20
+def BStmts : Stmts → Nat
+  | .nil => 0
+  | .letS _ e rest => B e + BStmts rest + 40
+  | .exprS e rest => B e + BStmts rest + 40
 end
+
+/-- prepend statements to a block. -/
+def Stmts.push : Stmts → Blk → Blk
+  | .nil, b => b
+  | .letS k e rest, b => (rest.push b).consLet k e
+  | .exprS e rest, b => (rest.push b).consExpr e
+
+theorem push_fin : (ss : Stmts) → (x : Expr) → ss.push (.fin .nil x) = .fin ss x
+  | .nil, x => rfl
+  | .letS k e rest, x => by simp [Stmts.push, push_fin rest x, Blk.consLet]
+  | .exprS e rest, x => by simp [Stmts.push, push_fin rest x, Blk.consExpr]
+
+theorem push_noFin : (ss : Stmts) → ss.push (.noFin .nil) = .noFin ss
+  | .nil => rfl
+  | .letS k e rest => by simp [Stmts.push, push_noFin rest, Blk.consLet]
+  | .exprS e rest => by simp [Stmts.push, push_noFin rest, Blk.consExpr]
 
 def MainConcl (e : Expr) : Prop :=
   (e.operandOk = false → ∀ rest, stopsAbove 0 rest →
@@ -551,6 +610,10 @@ def MainArgs (es : Args) : Prop :=
   ∀ rest, PArgs (BArgs es) (printArgs es ++ .rp :: rest) (rgArgs es) rest
 def MainCases (cs : Cases) : Prop :=
   ∀ rest, PCases (BCases cs) (printCases cs ++ .rb :: rest) (rgCases cs) rest
+def MainBody (b : Blk) : Prop :=
+  ∀ rest, PStmts (BBlk b) (printBody b ++ rest) (rgBlk b) rest
+def MainStmts (ss : Stmts) : Prop :=
+  ∀ T b r n, PStmts n T b r → PStmts (BStmts ss + n) (printStmts ss ++ T) ((rgStmts ss).push b) r
 
 theorem main_at {e : Expr} (hm : MainConcl e) (ho : e.operandOk = true)
     {k : Nat} (hk : k ≤ e.lvl) {rest : List Tok} (hs : stopsAbove k rest) (hok : okAfter e rest) :
@@ -651,6 +714,17 @@ theorem stops_comma (T : List Tok) : stopsAbove 0 (.comma :: T) := stopsAbove_of
 theorem stops_rb (T : List Tok) : stopsAbove 0 (.rb :: T) := stopsAbove_of_none T rfl
 theorem stops_lb (T : List Tok) : stopsAbove 0 (.lb :: T) := stopsAbove_of_none T rfl
 theorem stops_rp (T : List Tok) : stopsAbove 0 (.rp :: T) := stopsAbove_of_none T rfl
+theorem stops_semi (T : List Tok) : stopsAbove 0 (.semi :: T) := stopsAbove_of_none T rfl
+
+/-- a printed expression does not start with `}`, `;` or `let`. -/
+theorem exprStart_print (e : Expr) (T : List Tok) : exprStart (printE e ++ T) := by
+  by_cases ho : e.operandOk = true
+  · obtain ⟨t, r, h, ht⟩ := head_ok e ho
+    rw [h]
+    refine ⟨?_, ?_, ?_⟩ <;> intros <;> intro he <;> cases he <;>
+      rcases ht with h | h | ⟨a, h⟩ | h | h <;> cases h
+  · cases e <;> simp [Expr.operandOk] at ho <;>
+      (simp only [printE]; refine ⟨?_, ?_, ?_⟩ <;> intros <;> intro he <;> cases he)
 
 theorem noSC {e : Expr} (h : ∀ o l r, e ≠ .binary o l r) (o : BinOp) : shortcutOk o e = false := by
   cases e <;> first | rfl | exact absurd rfl (h _ _ _)
@@ -676,15 +750,15 @@ theorem main : (e : Expr) → MainConcl e
     simp only [printE, List.cons_append, List.append_assoc, List.singleton_append]
     have hb := pbase_tuple (main_top hme (stops_comma (printArgs es ++ .rp :: rest))) (hma rest)
     exact (plevel6 (Nat.le_refl 6) hb hloop).mono (by simp only [B]; omega)
-  | .block e => by
-    have hme := main e
+  | .block b => by
+    have hmb := mainBody b
     refine ⟨fun ho => by simp [Expr.operandOk] at ho, fun _ h5 => by simp [Expr.lvl] at h5,
       fun _ _ rest x r1 m _ _ hloop => ?_, fun o h => by simp [shortcutOk] at h⟩
-    have hrg : regroup (.block e) = .block (regroup e) := by simp [regroup, rg, wrapCtx]
+    have hrg : regroup (.block b) = .block (rgBlk b) := by simp [regroup, rg, wrapCtx]
     rw [hrg] at hloop
     simp only [Expr.lvl] at hloop ⊢
-    simp only [printE, List.cons_append, List.append_assoc, List.singleton_append]
-    have hb := pbase_block (main_top hme (stops_rb rest))
+    simp only [printE, List.cons_append]
+    have hb := pbase_block (hmb rest)
     exact (plevel6 (Nat.le_refl 6) hb hloop).mono (by simp only [B]; omega)
   | .post e p fld => by
     have hme := main e
@@ -721,16 +795,15 @@ theorem main : (e : Expr) → MainConcl e
     exact (chain_base hme rfl hL).mono (by simp only [B]; omega)
   | .ifElse c t e => by
     have hmc := main c
-    have hmt := main t
-    have hme := main e
+    have hmt := mainBody t
+    have hme := mainBody e
     refine ⟨fun _ rest _ => ?_, fun ho => by simp [Expr.operandOk] at ho,
       fun ho => by simp [Expr.operandOk] at ho, fun o h => by simp [shortcutOk] at h⟩
-    have hrg : regroup (.ifElse c t e) = .ifElse (regroup c) (regroup t) (regroup e) := by
+    have hrg : regroup (.ifElse c t e) = .ifElse (regroup c) (rgBlk t) (rgBlk e) := by
       simp [regroup, rg, wrapCtx]
     rw [hrg]
-    simp only [printE, List.cons_append, List.append_assoc, List.singleton_append]
-    exact (ptop_if (main_top hmc (stops_lb _)) (main_top hmt (stops_rb _))
-      (main_top hme (stops_rb rest))).mono (by simp only [B]; omega)
+    simp only [printE, List.cons_append, List.append_assoc]
+    exact (ptop_if (main_top hmc (stops_lb _)) (hmt _) (hme rest)).mono (by simp only [B]; omega)
   | .matchE m cs => by
     have hmm := main m
     have hmc := mainCases cs
@@ -902,6 +975,48 @@ theorem mainCases : (cs : Cases) → MainCases cs
     simp only [printCases, List.cons_append, List.append_assoc]
     exact (pcases_cons k (main_top hmb (stops_comma _)) (printCases_notRb cs (.rb :: rest))
       (hms rest)).mono (by simp only [BCases]; omega)
+theorem mainBody : (b : Blk) → MainBody b
+  | .fin ss e => by
+    have hme := main e
+    have hms := mainStmts ss
+    intro rest
+    have hrg : rgBlk (.fin ss e) = .fin (rgStmts ss) (regroup e) := by simp [rgBlk, regroup]
+    rw [hrg, show Blk.fin (rgStmts ss) (regroup e) = (rgStmts ss).push (.fin .nil (regroup e)) from
+      (push_fin _ _).symm]
+    simp only [printBody, List.append_assoc, List.singleton_append]
+    have hbase := pstmts_fin (exprStart_print e _) (main_top hme (stops_rb rest))
+    exact (hms _ _ _ _ hbase).mono (by simp only [BBlk]; omega)
+  | .noFin ss => by
+    have hms := mainStmts ss
+    intro rest
+    have hrg : rgBlk (.noFin ss) = .noFin (rgStmts ss) := by simp [rgBlk]
+    rw [hrg, show Blk.noFin (rgStmts ss) = (rgStmts ss).push (.noFin .nil) from (push_noFin _).symm]
+    simp only [printBody, List.append_assoc, List.singleton_append]
+    exact (hms _ _ _ _ (pstmts_rb rest)).mono (by simp only [BBlk]; omega)
+theorem mainStmts : (ss : Stmts) → MainStmts ss
+  | .nil => by
+    intro T b r n h
+    simpa [printStmts, rgStmts, Stmts.push, BStmts] using h
+  | .letS k e rest => by
+    have hme := main e
+    have hms := mainStmts rest
+    intro T b r n h
+    have hrg : rgStmts (.letS k e rest) = .letS k (regroup e) (rgStmts rest) := by
+      simp [rgStmts, regroup]
+    rw [hrg]
+    simp only [printStmts, List.cons_append, List.append_assoc, Stmts.push]
+    exact (pstmts_let k (main_top hme (stops_semi _)) (hms T b r n h)).mono
+      (by simp only [BStmts]; omega)
+  | .exprS e rest => by
+    have hme := main e
+    have hms := mainStmts rest
+    intro T b r n h
+    have hrg : rgStmts (.exprS e rest) = .exprS (regroup e) (rgStmts rest) := by
+      simp [rgStmts, regroup]
+    rw [hrg]
+    simp only [printStmts, List.cons_append, List.append_assoc, Stmts.push]
+    exact (pstmts_expr (exprStart_print e _) (main_top hme (stops_semi _)) (hms T b r n h)).mono
+      (by simp only [BStmts]; omega)
 end
 
 
@@ -917,9 +1032,9 @@ theorem B_le : (e : Expr) → B e ≤ 160 * (printE e).length
   | .tuple e es => by
     have := B_le e; have := BArgs_le es
     simp only [B, printE, List.length_cons, List.length_append, List.length_nil]; omega
-  | .block e => by
-    have := B_le e
-    simp only [B, printE, List.length_cons, List.length_append, List.length_nil]; omega
+  | .block b => by
+    have := BBlk_le b
+    simp only [B, printE, List.length_cons]; omega
   | .post e p fld => by
     have := B_le e; have := length_sub 1 false e (printE e)
     simp only [B, printE, List.length_append, List.length_cons, List.length_nil]; omega
@@ -941,8 +1056,8 @@ theorem B_le : (e : Expr) → B e ≤ 160 * (printE e).length
       split <;> simp [paren] <;> omega
     simp only [B, List.length_append, List.length_cons]; omega
   | .ifElse c t e => by
-    have := B_le c; have := B_le t; have := B_le e
-    simp only [B, printE, List.length_cons, List.length_append, List.length_nil]; omega
+    have := B_le c; have := BBlk_le t; have := BBlk_le e
+    simp only [B, printE, List.length_cons, List.length_append]; omega
   | .matchE m cs => by
     have := B_le m; have := BCases_le cs
     simp only [B, printE, List.length_cons, List.length_append, List.length_nil]; omega
@@ -961,6 +1076,21 @@ theorem BCases_le : (cs : Cases) → BCases cs ≤ 160 * (printCases cs).length
   | .cons k b rest => by
     have := B_le b; have := BCases_le rest
     simp only [BCases, printCases, List.length_cons, List.length_append]; omega
+theorem BBlk_le : (b : Blk) → BBlk b ≤ 160 * (printBody b).length
+  | .fin ss e => by
+    have := B_le e; have := BStmts_le ss
+    simp only [BBlk, printBody, List.length_cons, List.length_append, List.length_nil]; omega
+  | .noFin ss => by
+    have := BStmts_le ss
+    simp only [BBlk, printBody, List.length_cons, List.length_append, List.length_nil]; omega
+theorem BStmts_le : (ss : Stmts) → BStmts ss ≤ 160 * (printStmts ss).length
+  | .nil => by simp [BStmts]
+  | .letS k e rest => by
+    have := B_le e; have := BStmts_le rest
+    simp only [BStmts, printStmts, List.length_cons, List.length_append]; omega
+  | .exprS e rest => by
+    have := B_le e; have := BStmts_le rest
+    simp only [BStmts, printStmts, List.length_cons, List.length_append]; omega
 end
 
 /-! ## The recursion budget only matters for definedness -/
@@ -972,17 +1102,18 @@ def MonoAt (f : Nat) : Prop :=
   (∀ ts r, parseBase f ts = some r → parseBase (f + 1) ts = some r) ∧
   (∀ ts r, parseUnary f ts = some r → parseUnary (f + 1) ts = some r) ∧
   (∀ k ts r, parseLevel f k ts = some r → parseLevel (f + 1) k ts = some r) ∧
-  (∀ k e ts r, parseLoop f k e ts = some r → parseLoop (f + 1) k e ts = some r)
+  (∀ k e ts r, parseLoop f k e ts = some r → parseLoop (f + 1) k e ts = some r) ∧
+  (∀ ts r, parseStmts f ts = some r → parseStmts (f + 1) ts = some r)
 
 theorem mono_all : ∀ f, MonoAt f := by
   intro f
   induction f with
   | zero =>
-    refine ⟨?_, ?_, ?_, ?_, ?_, ?_, ?_⟩ <;> intros <;>
-      simp_all [parseTop, parseCases, parseArgs, parseBase, parseUnary, parseLevel, parseLoop]
+    refine ⟨?_, ?_, ?_, ?_, ?_, ?_, ?_, ?_⟩ <;> intros <;>
+      simp_all [parseTop, parseCases, parseArgs, parseBase, parseUnary, parseLevel, parseLoop, parseStmts]
   | succ f ih =>
-    obtain ⟨ht, hc, ha, hb, hu, hl, hp⟩ := ih
-    refine ⟨?_, ?_, ?_, ?_, ?_, ?_, ?_⟩
+    obtain ⟨ht, hc, ha, hb, hu, hl, hp, hs⟩ := ih
+    refine ⟨?_, ?_, ?_, ?_, ?_, ?_, ?_, ?_⟩
     · -- parseTop
       intro ts r h
       have other : ∀ ts, (∀ r', ts ≠ .kwMatch :: r') → (∀ r', ts ≠ .kwIf :: r') →
@@ -1022,18 +1153,18 @@ theorem mono_all : ∀ f, MonoAt f := by
             | nil => simp at h
             | cons t0 r0 =>
               cases t0 <;> simp at h ⊢
-              cases h1 : parseTop f r0 with
+              cases h1 : parseStmts f r0 with
               | none => simp [h1] at h
               | some q =>
-                rw [ht r0 q h1]
+                rw [hs r0 q h1]
                 simp only [h1] at h
                 obtain ⟨t1, r1⟩ := q
                 split at h
                 · rename_i e1 r2 heq
                   cases heq
-                  cases h2 : parseTop f r2 with
+                  cases h2 : parseStmts f r2 with
                   | none => simp [h2] at h
-                  | some q2 => rw [ht r2 q2 h2]; simpa [h2] using h
+                  | some q2 => rw [hs r2 q2 h2]; simpa [h2] using h
                 · cases h
         | lp => exact other _ (by intro _ he; cases he) (by intro _ he; cases he) h
         | rp => exact other _ (by intro _ he; cases he) (by intro _ he; cases he) h
@@ -1047,6 +1178,8 @@ theorem mono_all : ∀ f, MonoAt f := by
         | post a b => exact other _ (by intro _ he; cases he) (by intro _ he; cases he) h
         | pat a => exact other _ (by intro _ he; cases he) (by intro _ he; cases he) h
         | lam a => exact other _ (by intro _ he; cases he) (by intro _ he; cases he) h
+        | semi => exact other _ (by intro _ he; cases he) (by intro _ he; cases he) h
+        | letK a => exact other _ (by intro _ he; cases he) (by intro _ he; cases he) h
     · -- parseCases
       intro ts r h
       cases ts with
@@ -1113,12 +1246,9 @@ theorem mono_all : ∀ f, MonoAt f := by
             · cases h
         · -- lb
           simp only [parseBase] at h ⊢
-          cases h0 : parseTop f ts with
+          cases h0 : parseStmts f ts with
           | none => simp [h0] at h
-          | some p =>
-            rw [ht ts p h0]
-            simp only [h0] at h
-            exact h
+          | some p => rw [hs ts p h0]; simpa [h0] using h
         · -- atom
           simpa [parseBase] using h
         · -- lam
@@ -1163,6 +1293,8 @@ theorem mono_all : ∀ f, MonoAt f := by
         | post a b => exact other _ (by intro _ he; cases he) (by intro _ he; cases he) h
         | pat a => exact other _ (by intro _ he; cases he) (by intro _ he; cases he) h
         | lam a => exact other _ (by intro _ he; cases he) (by intro _ he; cases he) h
+        | semi => exact other _ (by intro _ he; cases he) (by intro _ he; cases he) h
+        | letK a => exact other _ (by intro _ he; cases he) (by intro _ he; cases he) h
     · -- parseLevel
       intro k ts r h
       rw [parseLevel] at h ⊢
@@ -1241,6 +1373,61 @@ theorem mono_all : ∀ f, MonoAt f := by
         | kwMatch => simpa [parseLoop] using h
         | pat a => simpa [parseLoop] using h
         | lam a => simpa [parseLoop] using h
+        | semi => simpa [parseLoop] using h
+        | letK a => simpa [parseLoop] using h
+    · -- parseStmts
+      intro ts r h
+      have other : ∀ ts, (∀ r', ts ≠ .rb :: r') → (∀ r', ts ≠ .semi :: r') → (∀ k r', ts ≠ .letK k :: r') →
+          parseStmts (f + 1) ts = some r → parseStmts (f + 1 + 1) ts = some r := by
+        intro ts h1 h2 h3 h
+        rw [parseStmts] at h ⊢
+        · cases h0 : parseTop f ts with
+          | none => simp [h0] at h
+          | some p =>
+            rw [ht ts p h0]
+            simp only [h0] at h
+            split at h
+            · rename_i e0 r0 heq
+              cases heq
+              cases h1' : parseStmts f r0 with
+              | none => simp [h1'] at h
+              | some q => simp only [h1'] at h; simp only [hs r0 q h1']; exact h
+            · rename_i heq; cases heq; simpa using h
+            · cases h
+        all_goals (intros; first | exact h1 _ ‹_› | exact h2 _ ‹_› | exact h3 _ _ ‹_›)
+      cases ts with
+      | nil => exact other [] (by intro _ he; cases he) (by intro _ he; cases he) (by intro _ _ he; cases he) h
+      | cons t ts =>
+        cases t with
+        | rb => simpa [parseStmts] using h
+        | semi => simp only [parseStmts] at h ⊢; exact hs _ _ h
+        | letK k =>
+          simp only [parseStmts] at h ⊢
+          cases h0 : parseTop f ts with
+          | none => simp [h0] at h
+          | some p =>
+            rw [ht ts p h0]
+            simp only [h0] at h
+            split at h
+            · rename_i e0 r0 heq
+              cases heq
+              cases h1' : parseStmts f r0 with
+              | none => simp [h1'] at h
+              | some q => simp only [h1'] at h; simp only [hs r0 q h1']; exact h
+            · cases h
+        | lp => exact other _ (by intro _ he; cases he) (by intro _ he; cases he) (by intro _ _ he; cases he) h
+        | rp => exact other _ (by intro _ he; cases he) (by intro _ he; cases he) (by intro _ _ he; cases he) h
+        | bang => exact other _ (by intro _ he; cases he) (by intro _ he; cases he) (by intro _ _ he; cases he) h
+        | comma => exact other _ (by intro _ he; cases he) (by intro _ he; cases he) (by intro _ _ he; cases he) h
+        | lb => exact other _ (by intro _ he; cases he) (by intro _ he; cases he) (by intro _ _ he; cases he) h
+        | kwIf => exact other _ (by intro _ he; cases he) (by intro _ he; cases he) (by intro _ _ he; cases he) h
+        | kwElse => exact other _ (by intro _ he; cases he) (by intro _ he; cases he) (by intro _ _ he; cases he) h
+        | kwMatch => exact other _ (by intro _ he; cases he) (by intro _ he; cases he) (by intro _ _ he; cases he) h
+        | op o => exact other _ (by intro _ he; cases he) (by intro _ he; cases he) (by intro _ _ he; cases he) h
+        | atom a => exact other _ (by intro _ he; cases he) (by intro _ he; cases he) (by intro _ _ he; cases he) h
+        | post a b => exact other _ (by intro _ he; cases he) (by intro _ he; cases he) (by intro _ _ he; cases he) h
+        | pat a => exact other _ (by intro _ he; cases he) (by intro _ he; cases he) (by intro _ _ he; cases he) h
+        | lam a => exact other _ (by intro _ he; cases he) (by intro _ he; cases he) (by intro _ _ he; cases he) h
 
 theorem parseTop_mono {f f' : Nat} {ts : List Tok} {r : Expr × List Tok}
     (h : parseTop f ts = some r) (hf : f ≤ f') : parseTop f' ts = some r := by
@@ -1268,7 +1455,8 @@ def ExtAt (f : Nat) : Prop :=
   (∀ ts e r, parseBase f ts = some (e, r) → parseBase f (ts ++ [.rp]) = some (e, r ++ [.rp])) ∧
   (∀ ts e r, parseUnary f ts = some (e, r) → parseUnary f (ts ++ [.rp]) = some (e, r ++ [.rp])) ∧
   (∀ k ts e r, parseLevel f k ts = some (e, r) → parseLevel f k (ts ++ [.rp]) = some (e, r ++ [.rp])) ∧
-  (∀ k a ts e r, parseLoop f k a ts = some (e, r) → parseLoop f k a (ts ++ [.rp]) = some (e, r ++ [.rp]))
+  (∀ k a ts e r, parseLoop f k a ts = some (e, r) → parseLoop f k a (ts ++ [.rp]) = some (e, r ++ [.rp])) ∧
+  (∀ ts e r, parseStmts f ts = some (e, r) → parseStmts f (ts ++ [.rp]) = some (e, r ++ [.rp]))
 
 theorem startsLt_append (ts : List Tok) : startsLt (ts ++ [.rp]) = startsLt ts := by
   cases ts with
@@ -1307,11 +1495,11 @@ theorem ext_all : ∀ f, ExtAt f := by
   intro f
   induction f with
   | zero =>
-    refine ⟨?_, ?_, ?_, ?_, ?_, ?_, ?_⟩ <;> intros <;>
-      simp_all [parseTop, parseCases, parseArgs, parseBase, parseUnary, parseLevel, parseLoop]
+    refine ⟨?_, ?_, ?_, ?_, ?_, ?_, ?_, ?_⟩ <;> intros <;>
+      simp_all [parseTop, parseCases, parseArgs, parseBase, parseUnary, parseLevel, parseLoop, parseStmts]
   | succ f ih =>
-    obtain ⟨ht, hc, ha, hb, hu, hl, hp⟩ := ih
-    refine ⟨?_, ?_, ?_, ?_, ?_, ?_, ?_⟩
+    obtain ⟨ht, hc, ha, hb, hu, hl, hp, hs⟩ := ih
+    refine ⟨?_, ?_, ?_, ?_, ?_, ?_, ?_, ?_⟩
     · -- parseTop
       intro ts e r h
       have other : ∀ ts, (∀ r', ts ≠ .kwMatch :: r') → (∀ r', ts ≠ .kwIf :: r') →
@@ -1365,28 +1553,23 @@ theorem ext_all : ∀ f, ExtAt f := by
             · rename_i c' r1 heq
               cases heq
               simp only [List.cons_append]
-              cases h1 : parseTop f r1 with
+              cases h1 : parseStmts f r1 with
               | none => simp [h1] at h
               | some q =>
                 obtain ⟨t1, r2⟩ := q
-                rw [ht r1 t1 r2 h1]
+                rw [hs r1 t1 r2 h1]
                 simp only [h1] at h
                 split at h
                 · rename_i t1' r3 heq
                   cases heq
                   simp only [List.cons_append]
-                  cases h2 : parseTop f r3 with
+                  cases h2 : parseStmts f r3 with
                   | none => simp [h2] at h
                   | some q2 =>
                     obtain ⟨e2, r4⟩ := q2
-                    rw [ht r3 e2 r4 h2]
-                    simp only [h2] at h
-                    split at h
-                    · rename_i e2' r5 heq
-                      cases heq
-                      simp only [Option.some.injEq, Prod.mk.injEq] at h
-                      simp [h.1, h.2]
-                    · cases h
+                    rw [hs r3 e2 r4 h2]
+                    simp only [h2, Option.some.injEq, Prod.mk.injEq] at h
+                    simp [h.1, h.2]
                 · cases h
             · cases h
         | lp => exact other _ (by intro _ he; cases he) (by intro _ he; cases he) h
@@ -1401,6 +1584,8 @@ theorem ext_all : ∀ f, ExtAt f := by
         | post a b => exact other _ (by intro _ he; cases he) (by intro _ he; cases he) h
         | pat a => exact other _ (by intro _ he; cases he) (by intro _ he; cases he) h
         | lam a => exact other _ (by intro _ he; cases he) (by intro _ he; cases he) h
+        | semi => exact other _ (by intro _ he; cases he) (by intro _ he; cases he) h
+        | letK a => exact other _ (by intro _ he; cases he) (by intro _ he; cases he) h
     · -- parseCases
       intro ts e r h
       cases ts with
@@ -1497,17 +1682,13 @@ theorem ext_all : ∀ f, ExtAt f := by
             · cases h
         · -- lb
           simp only [parseBase, List.cons_append] at h ⊢
-          cases h0 : parseTop f ts with
+          cases h0 : parseStmts f ts with
           | none => simp [h0] at h
           | some p =>
-            obtain ⟨e0, r0⟩ := p
-            rw [ht ts e0 r0 h0]
-            simp only [h0] at h
-            split at h
-            · rename_i heq; cases heq
-              simp only [Option.some.injEq, Prod.mk.injEq] at h
-              simp [h.1, h.2]
-            · cases h
+            obtain ⟨b0, r0⟩ := p
+            rw [hs ts b0 r0 h0]
+            simp only [h0, Option.some.injEq, Prod.mk.injEq] at h
+            simp [h.1, h.2]
         · -- atom
           simp only [parseBase, Option.some.injEq, Prod.mk.injEq] at h
           simp [parseBase, h.1, h.2]
@@ -1574,6 +1755,8 @@ theorem ext_all : ∀ f, ExtAt f := by
         | post a b => exact other _ (by intro _ he; cases he) (by intro _ he; cases he) h
         | pat a => exact other _ (by intro _ he; cases he) (by intro _ he; cases he) h
         | lam a => exact other _ (by intro _ he; cases he) (by intro _ he; cases he) h
+        | semi => exact other _ (by intro _ he; cases he) (by intro _ he; cases he) h
+        | letK a => exact other _ (by intro _ he; cases he) (by intro _ he; cases he) h
     · -- parseLevel
       intro k ts e r h
       rw [parseLevel] at h ⊢
@@ -1670,5 +1853,80 @@ theorem ext_all : ∀ f, ExtAt f := by
         | kwMatch => simp only [parseLoop, Option.some.injEq, Prod.mk.injEq, List.cons_append] at h ⊢; exact ⟨h.1, by rw [← h.2]; rfl⟩
         | pat x => simp only [parseLoop, Option.some.injEq, Prod.mk.injEq, List.cons_append] at h ⊢; exact ⟨h.1, by rw [← h.2]; rfl⟩
         | lam x => simp only [parseLoop, Option.some.injEq, Prod.mk.injEq, List.cons_append] at h ⊢; exact ⟨h.1, by rw [← h.2]; rfl⟩
+        | semi => simp only [parseLoop, Option.some.injEq, Prod.mk.injEq, List.cons_append] at h ⊢; exact ⟨h.1, by rw [← h.2]; rfl⟩
+        | letK x => simp only [parseLoop, Option.some.injEq, Prod.mk.injEq, List.cons_append] at h ⊢; exact ⟨h.1, by rw [← h.2]; rfl⟩
+    · -- parseStmts
+      intro ts e r h
+      have other : ∀ t0 ts0, t0 ≠ .rb → t0 ≠ .semi → (∀ k, t0 ≠ .letK k) →
+          parseStmts (f + 1) (t0 :: ts0) = some (e, r) →
+          parseStmts (f + 1) (t0 :: (ts0 ++ [.rp])) = some (e, r ++ [.rp]) := by
+        intro t0 ts0 h1 h2 h3 h
+        rw [parseStmts] at h
+        · rw [parseStmts]
+          · cases h0 : parseTop f (t0 :: ts0) with
+            | none => simp [h0] at h
+            | some p =>
+              obtain ⟨e0, r0⟩ := p
+              have := ht _ e0 r0 h0
+              simp only [List.cons_append] at this
+              rw [this]
+              simp only [h0] at h
+              split at h
+              · rename_i e0' r1 heq
+                cases heq
+                cases h1' : parseStmts f r1 with
+                | none => simp [h1'] at h
+                | some q =>
+                  obtain ⟨b1, r2⟩ := q
+                  simp only [h1', Option.some.injEq, Prod.mk.injEq] at h
+                  simp [hs r1 b1 r2 h1', h.1, h.2]
+              · rename_i heq; cases heq
+                simp only [Option.some.injEq, Prod.mk.injEq] at h
+                simp [h.1, h.2]
+              · cases h
+          all_goals (intros; rename_i he; cases he; first | exact h1 rfl | exact h2 rfl | exact h3 _ rfl)
+        all_goals (intros; rename_i he; cases he; first | exact h1 rfl | exact h2 rfl | exact h3 _ rfl)
+      cases ts with
+      | nil =>
+        rw [parseStmts] at h
+        · rw [(empty_none f).1] at h; cases h
+        all_goals (intros; rename_i he; cases he)
+      | cons t ts =>
+        cases t with
+        | rb =>
+          simp only [parseStmts, Option.some.injEq, Prod.mk.injEq] at h
+          simp [parseStmts, h.1, h.2]
+        | semi => simp only [parseStmts, List.cons_append] at h ⊢; exact hs _ _ _ h
+        | letK k =>
+          simp only [parseStmts, List.cons_append] at h ⊢
+          cases h0 : parseTop f ts with
+          | none => simp [h0] at h
+          | some p =>
+            obtain ⟨e0, r0⟩ := p
+            rw [ht ts e0 r0 h0]
+            simp only [h0] at h
+            split at h
+            · rename_i e0' r1 heq
+              cases heq
+              cases h1' : parseStmts f r1 with
+              | none => simp [h1'] at h
+              | some q =>
+                obtain ⟨b1, r2⟩ := q
+                simp only [h1', Option.some.injEq, Prod.mk.injEq] at h
+                simp [hs r1 b1 r2 h1', h.1, h.2]
+            · cases h
+        | lp => exact other _ ts (by intro he; cases he) (by intro he; cases he) (by intro _ he; cases he) h
+        | rp => exact other _ ts (by intro he; cases he) (by intro he; cases he) (by intro _ he; cases he) h
+        | bang => exact other _ ts (by intro he; cases he) (by intro he; cases he) (by intro _ he; cases he) h
+        | comma => exact other _ ts (by intro he; cases he) (by intro he; cases he) (by intro _ he; cases he) h
+        | lb => exact other _ ts (by intro he; cases he) (by intro he; cases he) (by intro _ he; cases he) h
+        | kwIf => exact other _ ts (by intro he; cases he) (by intro he; cases he) (by intro _ he; cases he) h
+        | kwElse => exact other _ ts (by intro he; cases he) (by intro he; cases he) (by intro _ he; cases he) h
+        | kwMatch => exact other _ ts (by intro he; cases he) (by intro he; cases he) (by intro _ he; cases he) h
+        | op o => exact other _ ts (by intro he; cases he) (by intro he; cases he) (by intro _ he; cases he) h
+        | atom a => exact other _ ts (by intro he; cases he) (by intro he; cases he) (by intro _ he; cases he) h
+        | post a b => exact other _ ts (by intro he; cases he) (by intro he; cases he) (by intro _ he; cases he) h
+        | pat a => exact other _ ts (by intro he; cases he) (by intro he; cases he) (by intro _ he; cases he) h
+        | lam a => exact other _ ts (by intro he; cases he) (by intro he; cases he) (by intro _ he; cases he) h
 
 end SamVerif.FmtFull
